@@ -299,6 +299,40 @@ Proof.
   intros. apply parse_all_emit. eapply enc_tok_ok; eauto.
 Qed.
 
+(* the Write entry point: same guarantees (the value is written out instead of looked up) *)
+Lemma write_step_ok rec wrec : heap_ok hp = true -> rec_ok rec -> rec_ok wrec ->
+  rec_ok (write_step simple hp rec wrec).
+Proof.
+  intros Hh Hrec Hwrec st v st' w Hok H.
+  destruct v; try exact (enc_step_ok rec Hh Hrec st _ st' w Hok H).
+  - cbn [write_step] in H. unfold write_string in H. inversion H; subst.
+    apply string_wire_ok. apply str_ok_all.
+  - cbn [write_step] in H.
+    destruct (hlookup hp addr) as [pv|] eqn:El; [|discriminate].
+    pose proof (hlookup_ok _ _ _ Hh El) as Hpv.
+    destruct (tracked pv).
+    + eapply enc_body_ok; [exact Hrec | exact Hpv | exact H].
+    + eapply Hwrec; eauto.
+Qed.
+
+Theorem enc_write_tok_ok : forall fuel st v st' w,
+  gval_ok v = true -> heap_ok hp = true ->
+  enc_write simple hp fuel st v = EOk st' w -> tok_ok w = true.
+Proof.
+  intros fuel st v st' w Hok Hh. revert st v st' w Hok.
+  induction fuel as [|f IH]; intros st v st' w Hok H; [discriminate|].
+  cbn [enc_write] in H. eapply (write_step_ok (enc simple hp f) (enc_write simple hp f) Hh); [| |exact Hok|exact H].
+  - intros st0 v0 st0' w0 Hv0 H0. eapply enc_tok_ok; eauto.
+  - intros st0 v0 st0' w0 Hv0 H0. eapply IH; eauto.
+Qed.
+
+Theorem enc_write_parse_all : forall fuel st v st' w,
+  gval_ok v = true -> heap_ok hp = true ->
+  enc_write simple hp fuel st v = EOk st' w -> parse_all (emit w) = Some w.
+Proof.
+  intros. apply parse_all_emit. eapply enc_write_tok_ok; eauto.
+Qed.
+
 End Mode.
 
 (* every Go string goes out either under a string tag with strict UTF-8 content or as bytes *)
@@ -411,6 +445,32 @@ Proof.
   induction fuel as [|f IH]; intros st v s Hok H; [discriminate|].
   cbn [enc] in H. eapply (enc_step_total (enc simple hp f) Hh); [|exact Hok|exact H].
   intros st0 v0 s0 Hv0 H0. eapply IH; eauto.
+Qed.
+
+Lemma write_step_total rec wrec : heap_closed hp = true -> rec_total rec -> rec_total wrec ->
+  rec_total (write_step simple hp rec wrec).
+Proof.
+  intros Hh Hrec Hwrec st v s Hok H.
+  destruct v; try exact (enc_step_total rec Hh Hrec st _ s Hok H).
+  - cbn [write_step] in H. unfold write_string in H. discriminate.
+  - cbn [write_step] in H. cbn [ptrs_ok] in Hok.
+    destruct (hlookup hp addr) as [pv|] eqn:El; [|discriminate].
+    pose proof (hlookup_closed _ _ _ Hh El) as Hpv.
+    destruct (tracked pv) eqn:Ht.
+    + exact (enc_body_total rec (ByPtr addr) Hrec st pv s Ht Hpv H).
+    + eapply Hwrec; eauto.
+Qed.
+
+Theorem enc_write_total : forall fuel st v s,
+  heap_closed hp = true -> ptrs_ok hp v = true ->
+  enc_write simple hp fuel st v = EPanic s -> s = 1%N.
+Proof.
+  intros fuel st v s Hh. revert st v s.
+  induction fuel as [|f IH]; intros st v s Hok H; [discriminate|].
+  cbn [enc_write] in H.
+  eapply (write_step_total (enc simple hp f) (enc_write simple hp f) Hh); [| |exact Hok|exact H].
+  - intros st0 v0 s0 Hv0 H0. eapply enc_total; eauto.
+  - intros st0 v0 s0 Hv0 H0. eapply IH; eauto.
 Qed.
 
 End Total.
